@@ -5,10 +5,10 @@
 (*   "entry"   one directory entry e (local names over the byte-class alphabet, host/port   *)
 (*             variants incl. Host=+ with a Port, foreign host, URL: selectors) rendered    *)
 (*             for protocol view p and for plain Gopher: Canon of both renderings agree     *)
-(*             (EntriesAgree), except for the NAMED deviation EmptySelectorHref             *)
+(*             (EntriesAgree; no deviation is tolerated any more)                           *)
 (*   "search"  a search string s typed into a search item (selector with reserved           *)
 (*             characters or Virtual "?args") through p's own mechanism                     *)
-(*             reaches the handler as s (SearchesArrive), except for FormDecodeReplace      *)
+(*             reaches the handler as s (SearchesArrive), except for PlusFlagAmbiguity      *)
 (*   "tree"    a content tree c (the kinds of MC_C05 over LocalNames): every entry of every  *)
 (*             listing of the tree agrees between p and plain Gopher (TreesAgree); these    *)
 (*             are the trees whose directories are fetched through all protocol views       *)
@@ -58,10 +58,8 @@ Compute ==
     /\ res = "new"
     /\ res' = IF mode = "tree" THEN TreeVerdict(p, c, hl)
               ELSE IF mode = "entry"
-              THEN (IF EntryAgrees(p, e) THEN "ok"
-                    ELSE IF EmptySelectorHref(p, e) THEN "EmptySelectorHref" ELSE "EntryDiffers")
+              THEN (IF EntryAgrees(p, e) THEN "ok" ELSE "EntryDiffers")
               ELSE (IF SearchReaches(p, Target(p, e), RootRef(p), s) = s THEN "ok"
-                    ELSE IF FormDecodeReplace(p, s) THEN "FormDecodeReplace"
                     ELSE IF PlusFlagAmbiguity(p, s) THEN "PlusFlagAmbiguity" ELSE "SearchDiffers")
     /\ UNCHANGED <<mode, e, s, c, hl, p>>
 Spec == Init /\ [][Compute]_vars
@@ -70,5 +68,5 @@ EntriesAgree == res # "EntryDiffers"
 SearchesArrive == res # "SearchDiffers"
 TreesAgree == res # "TreeDiffers"
 \* expected to be violated while the findings are open (witnesses that the deviations are reachable)
-NoNamedDeviation == res \notin {"EmptySelectorHref", "FormDecodeReplace", "PlusFlagAmbiguity"}
+NoNamedDeviation == res \notin {"PlusFlagAmbiguity"}
 =============================================================================
